@@ -53,6 +53,30 @@ def replay(args, outdir):
                     exp.update(S.between(feats, bs, be, q))
             if sorted(set(S.names(got))) != sorted(exp):
                 clause = 'read.method%d' % a['method']
+        elif lemma == 'L2b_molecule_annotation':
+            from singlecellmultiomics.molecule.featureannotatedmolecule import FeatureAnnotatedMolecule
+            from singlecellmultiomics.fragment import Fragment
+            SP, LP = list(range(6, 15)), [0, 1, 3, 6]
+            feats = [(f[0], f[1], f[2], f[3], f[2]) for f in mk(a['n'], [(SP[a['s0']], LP[a['l0']]), (SP[a['s1']], LP[a['l1']])], [a['st0'], a['st1']])]
+            fc = cont(feats); fc.sort()
+            cig = [(0, a['b1'])] + ([(3, a['gap']), (0, a['b2'])] if a['gap'] > 0 else [])
+            qlen = a['b1'] + (a['b2'] if a['gap'] > 0 else 0)
+            read = pysam_mk(query_name='q', reference_name='chr1', reference_start=10, cigartuples=cig, seq='A' * qlen, qual='I' * qlen, is_reverse=a['rev'],
+                            is_read1=True, tags={'SM': 'lib_1', 'RX': 'ACG'})
+            mode = [None, False, True][a['stranded']]
+            m = FeatureAnnotatedMolecule(Fragment([read, None], umi_hamming_distance=0), features=fc, stranded=mode)
+            m.annotate(a['method'])
+            q = None if mode is None else ('-' if (bool(a['rev']) != mode) else '+')
+            exp = set()
+            for (bs, be) in read.get_blocks():
+                if a['method'] == 0:
+                    exp.update(S.between(feats, bs, be - 1, q))
+                else:
+                    for pos in range(bs, be):
+                        exp.update(S.at(feats, pos, q))
+            if sorted(m.hits.keys()) != sorted(exp):
+                clause = 'molecule_annotation.stranded_%s.method%d' % (mode, a['method'])
+                desc = 'features %r read blocks %r rev=%r -> hits %r expected %r' % (feats, read.get_blocks(), a['rev'], sorted(m.hits.keys()), sorted(exp))
         else:
             POOL = [0, 3, 5, 8, 10]
             fc = F.FeatureContainer()
